@@ -197,23 +197,8 @@ def run(ctx):
     ctx.check(w is None, 'C12.finalize-order', fcon, 'the lock is reached only after the hook loop',
               'the lock can be set without running the hooks', ff.loc(ln.ast), instance='hooks-before-lock',
               path=describe_path(g, w) if w else None)
-    # no store write inside the hook/validation loop
+    hooks_atomic(ctx, 'C12.finalize-order')
     loop_st = hl.ast
-    inside = [n for n in bind_nodes if in_subtree(n.ast, loop_st)]
-    ctx.check(not inside and bind_nodes, 'C12.finalize-order', fcon,
-              'hook results are collected and validated first; bindings are applied in a separate later loop '
-              '(a rejection leaves the configuration unmodified)',
-              'bind_parameter is called inside the hook loop (line %d): a later hook rejecting would leave earlier '
-              'updates applied' % (inside[0].lineno if inside else 0) if inside else 'finalize no longer applies hook results',
-              ff.loc(inside[0].ast) if inside else ff.loc(), instance='collect-then-apply')
-    # no hook / key validation can run after the first bind
-    for bn in bind_nodes:
-      reach = g.reachable_from(bn.id)
-      late = [n for n in parse_nodes if n.id in reach] + \
-             [n for n in g.live_nodes() if n.id in reach and n.kind == 'raise_stmt']
-      ctx.check(not late, 'C12.finalize-order', fcon, 'no key validation or rejection follows the first applied binding',
-                'validation `%s` (line %d) can run after a binding has been applied' %
-                (late[0].text(), late[0].lineno) if late else '', ff.loc(bn.ast), instance='apply-after-validate')
     # hooks see the configuration as parsed
     hook_calls = [c for n in g.live_nodes() if in_subtree(n.ast, loop_st) for c in calls_of_node(n)
                   if isinstance(c.func, ast.Name) and isinstance(loop_st.target, ast.Name) and c.func.id == loop_st.target.id]
@@ -260,3 +245,35 @@ def run(ctx):
               'built-in hook rejecting %s is registered and raises' % what,
               'built-in hook rejecting %s is %s' % (what, 'not registered with finalize' if not registered else 'unable to raise'),
               hf.loc())
+
+
+def hooks_atomic(ctx, rule):
+  """finalize collects and validates every hook result before any is applied."""
+  prog = ctx.prog
+  atoms, writers, flag, _ = lock_model(ctx)
+  ff = ctx.func('config.finalize')
+  fcon = construct(ff)
+  g, facts = lock_facts(ctx, ff, atoms, writers)
+  hook_loops = [n for n in g.live_nodes() if n.kind == 'for' and '_FINALIZE_HOOKS' in u(n.ast.iter)]
+  if not hook_loops:
+    ctx.fail(rule, fcon, 'finalize no longer iterates the registered hooks', ff.loc(), instance='collect-then-apply')
+    return
+  loop_st = hook_loops[0].ast
+  bind_nodes = nodes_calling(prog, ff, g, 'config.bind_parameter')
+  parse_nodes = nodes_calling(prog, ff, g, 'config.ParsedBindingKey.parse')
+  # no store write inside the hook/validation loop
+  inside = [n for n in bind_nodes if in_subtree(n.ast, loop_st)]
+  ctx.check(not inside and bind_nodes, rule, fcon,
+            'hook results are collected and validated first; bindings are applied in a separate later loop '
+            '(a rejection leaves the configuration unmodified)',
+            'bind_parameter is called inside the hook loop (line %d): a later hook rejecting would leave earlier '
+            'updates applied' % (inside[0].lineno if inside else 0) if inside else 'finalize no longer applies hook results',
+            ff.loc(inside[0].ast) if inside else ff.loc(), instance='collect-then-apply')
+  # no hook / key validation can run after the first bind
+  for bn in bind_nodes:
+    reach = g.reachable_from(bn.id)
+    late = [n for n in parse_nodes if n.id in reach] + \
+           [n for n in g.live_nodes() if n.id in reach and n.kind == 'raise_stmt']
+    ctx.check(not late, rule, fcon, 'no key validation or rejection follows the first applied binding',
+              'validation `%s` (line %d) can run after a binding has been applied' %
+              (late[0].text(), late[0].lineno) if late else '', ff.loc(bn.ast), instance='apply-after-validate')
